@@ -258,6 +258,7 @@ inductive Out where
   | stuck
   | oob
   | badBound     -- the shrink formula produced NaN or +inf (scipy's behaviour is not modelled)
+  deriving DecidableEq
 
 structure Result where
   out : Out
